@@ -439,7 +439,7 @@ def parse_exec_out(out):
             r["text"][int(p[1])] = p[2]
         elif p[0] == "N":
             r["norm"][int(p[1])] = p[2] == "1"
-        elif p[0] == "B":
+        elif p[0] == "B" and p[2] != "-":
             r["bound"][int(p[1])] = p[2] == "1"
         elif p[0] == "D":
             r["verd"][(int(p[1]), int(p[2]))] = (int(p[3]), int(p[4]))
@@ -510,8 +510,8 @@ def judge_exec(ck, xr, run, label):
     nbad = [c for c in run if not r["norm"].get(c["id"])]
     ck.obligation("execution (%s): the script the reader's entry point hands to the planners is norm_script (model/LogqlPlan.v) of the script as written, on the %d executed cases" % (label, len(run)),
                   not nbad, "; ".join(c["query"] for c in nbad[:3]))
-    bbad = [c for c in run if not r["bound"].get(c["id"])]
-    ck.obligation("execution (%s): every WITH reference of the planner model's tree carries the query its alias is bound to in the statement (wrefs_bound: no alias capture in the model), on the %d executed cases" % (label, len(run)),
+    bbad = [c for c in run if r["bound"].get(c["id"]) is False]
+    ck.obligation("execution (%s): every WITH reference of the planner model's tree carries the query its alias is bound to in the statement (wrefs_bound: no alias capture in the model), on a sample of %d of the %d executed cases" % (label, len(r["bound"]), len(run)),
                   not bbad, "; ".join(c["query"] for c in bbad[:3]))
     tbad_ids = {c["id"] for c in tbad}
     hist = {"agree": 0, "tie-dependent": 0, "differ": 0, "not-evaluated": 0, "no-reference": 0, "shortcut-window-unaligned": 0, "text-not-rendered": 0}
@@ -697,7 +697,7 @@ def scan_source(ck):
 
 def run(ck):
     ck.trusted += [
-        "C08: the meaning of each emitted SQL shape (model/LogqlMetricSem.v sem_*: GROUP BY = partition by key, aggregates over the group in table order, any() = a member, SELECT aliases shadow source columns of the same name except inside their own definition, intDiv truncates, HAVING filters groups) is a reading of the ClickHouse documentation; since round 3 it is cross-checked on every run by EXECUTING the statements (model/SqlEvalAgg.v: C07's SqlEval select semantics + aggregate functions parsed from the statement text, itself a trusted reading of ClickHouse: no ClickHouse exists in the sandbox) over generated databases against metric_ref_db - sampled, not proved; what is executed is the planner model's statement, required byte-identical to the implementation's on the same case; concrete oracle instances (substring match for RE2, exact decimals, k=v;k=v documents for JSON, injective byte encoding for cityHash64, symmetric polynomials for quantile/varPop/stddevPop); the metrics_15s roll-up is modelled as one count state per line in its 15 s slot",
+        "C08: the meaning of each emitted SQL shape (model/LogqlMetricSem.v sem_*: GROUP BY = partition by key, aggregates over the group in table order, any() = a member, SELECT aliases shadow source columns of the same name except inside their own definition, intDiv truncates, HAVING filters groups) is a reading of the ClickHouse documentation; it is cross-checked on every run by EXECUTING the IMPLEMENTATION's own statements: their text is parsed back into the tree of model/Sql.v (harness/sqlparse + harness/cmd/logqlsql/impltree.go: untrusted, render(prep(tree)) = text required byte for byte), every WITH reference bound by alias to the member of the statement's WITH list (LogqlSemCheck.prep), and evaluated by model/SqlEvalAgg.v (C07's SqlEval select semantics + aggregate functions parsed from the statement text + TopKPlanner's arraySlice/arraySort/groupArray select read together with its ARRAY JOIN; itself a trusted reading of ClickHouse: no ClickHouse exists in the sandbox; a Map as third tuple component is read as never deciding the sort) over generated databases against metric_ref_db - sampled, not proved; concrete oracle instances (substring match for RE2, exact decimals, k=v;k=v documents for JSON, injective byte encoding for cityHash64, symmetric polynomials for quantile/varPop/stddevPop); the metrics_15s roll-up is modelled as one count state per line in its 15 s slot",
         "C08: the main theorems compute with exact rationals; float64 is covered by separate theorems over the model 'every operation returns rnd(exact)' (float64_*: exact parts proved for integer data below 2^53, approximate parts listed in model/LogqlMetricFloat.v); varPop / stddevPop / quantile are oracles equal on both sides; cityHash64 of a label map is an injective oracle (no collisions) and insensitive to map entry order",
         "C08: the rows reaching the metric planners are tied by theorem (logql_metric_correct_from_stored_data, log_lines_are_consistent) to C07's reference log_rows2 over a database with db_ok and fingerprint = function of the label set (line filters, label filters, json stages, drops); that the SQL of the log part evaluates to those lines is C07's theorem over SqlEval.v (trusted there); timestamps are non-negative",
         "C08: the fragments judged by the spec oracle are located in the implementation's SQL by regular expressions in checks/c08.py",
@@ -707,7 +707,7 @@ def run(ck):
                             "non-trivial = the real planners produced SQL; distinct by (query, context). post-processors: random batches of window-start rows of 1-3 series "
                             "(fingerprint 0 included, zero and negative values, rows outside [from,to], off-grid timestamps), ranges/steps smaller, equal, larger; non-trivial = FixPeriod case with >= 3 rows. "
                             "execution: metric queries of the sub-grammar with a reference meaning (matchers = / =~, line filters, label filters incl. numeric and and/or, json parameters, drop, unwrap; "
-                            "every range function, vector operator with and without grouping, quantile, comparison; ranges 5s-1m, steps 1s-2m; half of the windows on whole 15 s slots) x 2 databases "
+                            "every range function, vector operator with and without grouping, double groupings (by/without on an unwrapped range function under a grouped vector aggregation), quantile, comparison, topk/bottomk (long ranges, half of them over plain selectors); ranges 5s-1m, steps 1s-2m; half of the windows on whole 15 s slots, half widened to whole ranges as FixPeriodPlanner hands them) x 2 databases "
                             "(2-5 series sharing / not sharing grouped labels, 1-5 lines each on and around window and bucket bounds, other sample types); non-trivial = agreeing case with >= 3 stored lines, distinct by (query, context, database). ")
     if ck.replay:
         run_replay(ck)
